@@ -46,6 +46,11 @@ impl<'i> ExecutableInstruction<'i> for FoldStream<'i> {
                 exec_ctx.streams.get_mut(iterable.name, iterable.position).unwrap()
             };
 
+        #[cfg(aquavm_verif)]
+        crate::verif_hooks::emit(crate::verif_hooks::Event::StreamUse {
+            name: iterable.name.to_string(),
+            air_pos: iterable.position.into(),
+        });
         execute_with_stream(
             exec_ctx,
             trace_ctx,
